@@ -20,9 +20,10 @@
 (***************************************************************************)
 EXTENDS Integers, Sequences, FiniteSets, TLC, Json, IOUtils
 
-Kinds == {"t", "tr", "u", "ur", "r"}   \* table+gc, table+gc resurrecting, userdata gc+release, same resurrecting, userdata release only
-HasGc(k) == k \in {"t", "tr", "u", "ur"}
-HasRel(k) == k \in {"u", "ur", "r"}
+Kinds == {"t", "tr", "u", "ur", "r", "uk"}   \* table+gc, table+gc resurrecting, userdata gc+release, same resurrecting, userdata release only,
+                                           \* uk: userdata gc+release whose finaliser exhausts the CPU limit of its context (only created inside one)
+HasGc(k) == k \in {"t", "tr", "u", "ur", "uk"}
+HasRel(k) == k \in {"u", "ur", "r", "uk"}
 Resurrects(k) == k \in {"tr", "ur"}
 
 (* trace validation *)
